@@ -24,7 +24,8 @@ const (
 	OtherNaN               // other quiet/signalling/negative NaN payloads
 	Decimalish             // short decimals k/10^d
 	Big200                 // magnitudes up to 2^200, mixed
-	Finite     = SmallInt | Moderate | FullRange | Denormal | Zeros | Decimalish
+	IntEdge                // whole numbers at and around the limits of machine integers (2^15, 2^31, 2^53, 2^63)
+	Finite     = SmallInt | Moderate | FullRange | Denormal | Zeros | Decimalish | IntEdge
 	AllBits    = Finite | Infs | CanonNaN | OtherNaN
 	NoNaN      = Finite | Infs
 )
@@ -52,6 +53,7 @@ func Float(t *rapid.T, classes int) model.F {
 	add(OtherNaN, 1)
 	add(Decimalish, 3)
 	add(Big200, 3)
+	add(IntEdge, 1)
 	if len(opts) == 0 {
 		panic("gen.Float: no class")
 	}
@@ -108,6 +110,23 @@ func Float(t *rapid.T, classes int) model.F {
 			v = math.Nextafter(v, math.Inf(-1))
 		case 2:
 			v = float64(k) * math.Pow(10, -float64(d)) // the product instead of the quotient
+		}
+		return model.Of(v)
+	case IntEdge:
+		// fixed-point data (1e-7 degrees in int32, millimetres in int64) and any fast path
+		// that computes in machine integers: the limits, their neighbours, anything between
+		k := uint(rapid.SampledFrom([]int{15, 16, 31, 31, 31, 32, 53, 62, 63}).Draw(t, "ik"))
+		lim := math.Ldexp(1, int(k))
+		var v float64
+		switch rapid.IntRange(0, 4).Draw(t, "iwhich") {
+		case 0:
+			v = lim
+		case 1:
+			v = lim - 1
+		case 2:
+			v = -lim
+		default:
+			v = math.Floor(rapid.Float64Range(-lim, lim).Draw(t, "iv"))
 		}
 		return model.Of(v)
 	case Big200:
